@@ -1032,7 +1032,11 @@ func (c *StructConverter) To(obj Object) (interface{}, error) {
 		}
 		return nil, nil
 	case *Proxy:
-		// Return the object wrapped by the proxy
+		// Return the object wrapped by the proxy, if it is of this struct type
+		if wrapped := reflect.TypeOf(obj.obj); wrapped != c.typ && wrapped != reflect.PointerTo(c.typ) &&
+			!(wrapped.Kind() == reflect.Ptr && wrapped.Elem() == c.typ) && !(c.typ.Kind() == reflect.Ptr && c.typ.Elem() == wrapped) {
+			return nil, errz.TypeErrorf("type error: expected %s (%s given)", c.typ, wrapped)
+		}
 		if c.isValueType {
 			return reflect.ValueOf(obj.obj).Elem().Interface(), nil
 		}
